@@ -45,7 +45,9 @@ def configs(tier):
     else:
         out.append({"w1": 1, "ids": 3, "reads": 2, "inspect": False, "W": 5, "Ks": (50, 60, 76)})
         out.append({"w1": 2, "ids": 3, "reads": 1, "inspect": False, "W": 5, "Ks": (60, 76, 90)})
-        out.append({"w1": 1, "w2": 1, "ids": 3, "reads": 1, "inspect": False, "W": 5, "Ks": (76, 90, 110), "context_bound": 3})
+        # three processes under <= 3 pre-emptions: *measured* not finished after 55 min on a loaded machine; its budget is capped,
+        # so it may end INCONCLUSIVE (reported as such, never as success)
+        out.append({"w1": 1, "w2": 1, "ids": 3, "reads": 1, "inspect": False, "W": 5, "Ks": (76, 90), "context_bound": 3, "timeout_s": 900})
         out.append({"w1": 1, "ids": 3, "W": 5, "Ks": (80, 100, 120)})
         out.append({"w1": 1, "ids": 3, "presize": 3, "W": 5, "Ks": (80, 100, 120)})
         out.append({"w1": 2, "ids": 3, "inspect": "flush", "W": 5, "Ks": (90, 110)})
@@ -56,4 +58,4 @@ def configs(tier):
 
 def run(tier, seed):
     return runner.run_property("C14", tier, seed, "harness.storage_common", configs(tier), ("assert", "deadlock"), (60, 80, 100),
-                               600 if tier == "quick" else 2400, META, wall_limit=1700 if tier == "quick" else 9000)
+                               600 if tier == "quick" else 2400, META, wall_limit=1700 if tier == "quick" else 4800)
